@@ -5,6 +5,8 @@ package rt
 
 import (
 	"bytes"
+	"context"
+	"encoding/binary"
 	"fmt"
 	"io"
 	"net/http"
@@ -230,4 +232,37 @@ func awaitSubscribed(conn *nats.Conn) {
 		time.Sleep(200 * time.Microsecond)
 	}
 	conn.Flush()
+}
+
+// CountReplyMessages parses what a server sent back for one request (header block followed by
+// thrift messages) and returns how many complete messages it holds: exactly one for a two-way call.
+func CountReplyMessages(proto string, content []byte) (int, error) {
+	if len(content) >= 4 && int(binary.BigEndian.Uint32(content)) == len(content)-4 && (len(content) < 5 || content[4] == 0) && content[0] != 0 {
+		content = content[4:]
+	}
+	_, n, err := refDecodeHeaders(content)
+	if err != nil {
+		return 0, fmt.Errorf("headers: %v", err)
+	}
+	buf := &thrift.TMemoryBuffer{Buffer: bytes.NewBuffer(append([]byte{}, content[n:]...))}
+	p := protoFactory(proto).GetProtocol(buf)
+	count := 0
+	for {
+		if rest := bytes.TrimSpace(buf.Bytes()); len(rest) == 0 {
+			return count, nil
+		}
+		if _, _, _, err := p.ReadMessageBegin(context.Background()); err != nil {
+			return count, fmt.Errorf("after %d messages: message begin: %v", count, err)
+		}
+		if err := p.Skip(context.Background(), thrift.STRUCT); err != nil {
+			return count, fmt.Errorf("after %d messages: body: %v", count, err)
+		}
+		if err := p.ReadMessageEnd(context.Background()); err != nil {
+			return count, fmt.Errorf("after %d messages: message end: %v", count, err)
+		}
+		count++
+		if count > 16 {
+			return count, nil
+		}
+	}
 }
